@@ -123,9 +123,13 @@ impl TryFrom<&FixedShapeTensorField> for Field {
     type Error = Error;
 
     fn try_from(value: &FixedShapeTensorField) -> Result<Self> {
-        let mut n = 1;
+        // a zero dimension means no elements, regardless of the other dimensions
+        let mut n: usize = if value.shape.contains(&0) { 0 } else { 1 };
         for s in &value.shape {
-            n *= *s;
+            let Some(next) = n.checked_mul(*s) else {
+                fail!("The number of elements of FixedShapeTensorField does not fit into i32");
+            };
+            n = next;
         }
 
         let mut metadata = HashMap::new();
